@@ -53,8 +53,13 @@ func NewFilteredAdapter(filePath string) *FilteredAdapter {
 
 // LoadPolicy loads all policy rules from the storage.
 func (a *FilteredAdapter) LoadPolicy(model model.Model) error {
-	a.filtered = false
-	return a.Adapter.LoadPolicy(model)
+	err := a.Adapter.LoadPolicy(model)
+	if err == nil {
+		// only a completed full load ends the filtered state: after a failed one the
+		// enforcer may still hold a partial view that must not be saved over the file
+		a.filtered = false
+	}
+	return err
 }
 
 // LoadFilteredPolicy loads only policy rules that match the filter.
